@@ -292,3 +292,96 @@ Fixpoint e2ev_run (s : vstate) (ops : list vop) : list vobs :=
   | [] => []
   | o :: rest => let '(s', ob) := e2ev_step s o in ob :: e2ev_run s' rest
   end.
+
+(* ---- end-to-end cases on index groups + virtual channels: units 1..3 are index groups
+   (exclusive control, persisted), units 4.. are virtual channels (shared control). One
+   controller per unit; a writer holds a gate on each of its units. streamWriter.write visits
+   every index group of the writer (in Go map order — irrelevant here, the outcome is a
+   conjunction) and then the virtual channels: the frame is reported authorized iff every unit
+   of the frame that the writer holds authorizes; the samples of an authorized group are
+   persisted whatever happens to the other units. ---- *)
+Inductive gop :=
+| GOpen (w subj : N) (units : list (N * N)) (eou : bool)
+| GWrite (w : N) (keys : list N) (n : N)
+| GSet (w : N) (units : list (N * N))
+| GClose (w : N).
+
+Record gstate := GS { g_ctls : list (N * ctl); g_writers : list (N * list N); g_used : list N;
+                      g_next : Z; g_store : list (N * list Z) }.
+Definition ginit : gstate :=
+  GS [(1, init); (2, init); (3, init); (4, init); (5, init)] [] [] 10 [(1, []); (2, []); (3, [])].
+
+Definition ushared (u : N) : bool := 4 <=? u.
+Definition gctl (s : gstate) (k : N) : ctl :=
+  match find (fun p => fst p =? k) (g_ctls s) with Some p => snd p | None => init end.
+Definition gset_ctl (s : gstate) (k : N) (c : ctl) : gstate :=
+  GS (map (fun p => if fst p =? k then (k, c) else p) (g_ctls s)) (g_writers s) (g_used s)
+     (g_next s) (g_store s).
+Definition gunits (s : gstate) (w : N) : option (list N) :=
+  match find (fun p => fst p =? w) (g_writers s) with Some p => Some (snd p) | None => None end.
+Definition gustep (s : gstate) (k : N) (o : op) : gstate * out :=
+  let '(c', ou) := step true (ushared k) (gctl s k) o in (gset_ctl s k c', ou).
+
+Definition grelease (s : gstate) (w : N) (ks : list N) : gstate :=
+  fold_left (fun s k => fst (gustep s k (Release (vhandle w k)))) ks s.
+
+Fixpoint gopen (s : gstate) (w subj : N) (eou : bool) (todo : list (N * N)) (done : list N)
+  : gstate * ostat :=
+  match todo with
+  | [] => (GS (g_ctls s) (g_writers s ++ [(w, done)]) (g_used s) (g_next s) (g_store s), Ok)
+  | (k, a) :: rest =>
+      let tr := TR (g_next s * 1000000000)%Z ts_max in
+      let '(s', ou) := gustep s k (Open (OCfg (vhandle w k) subj a tr false eou false)) in
+      match out_st ou with
+      | Ok => gopen s' w subj eou rest (done ++ [k])
+      | st => (grelease s' w done, st)
+      end
+  end.
+
+Definition gauthz (s : gstate) (w k : N) : bool :=
+  fst (authorize (ushared k) (gctl s k) (vhandle w k)).
+
+Definition e2eg_step (s : gstate) (o : gop) : gstate * eobs :=
+  match o with
+  | GOpen w subj units eou =>
+      if existsb (N.eqb w) (g_used s) then (s, (5, 2, [])) else
+      let s0 := GS (g_ctls s) (g_writers s) (g_used s ++ [w]) (g_next s) (g_store s) in
+      let '(s', st) := gopen s0 w subj eou units [] in (s', (st_code st, 2, []))
+  | GWrite w keys n =>
+      match gunits s w with
+      | None => (s, (5, 2, []))
+      | Some held =>
+          let cnt := N.to_nat (N.max n 1) in
+          let ts := stamps (g_next s) cnt in
+          let mine := filter (fun k => existsb (N.eqb k) held) keys in
+          let az := forallb (gauthz s w) mine in
+          let store' := map (fun p => if existsb (N.eqb (fst p)) mine && gauthz s w (fst p)
+                                      then (fst p, snd p ++ ts) else p) (g_store s) in
+          (GS (g_ctls s) (g_writers s) (g_used s) (g_next s + Z.of_nat cnt)%Z store',
+           (0, if az then 1 else 0, ts))
+      end
+  | GSet w units =>
+      match gunits s w with
+      | None => (s, (5, 2, []))
+      | Some held =>
+          (fold_left (fun s p => if existsb (N.eqb (fst p)) held
+                                 then fst (gustep s (fst p) (SetAuth (vhandle w (fst p)) (snd p)))
+                                 else s) units s, (0, 2, []))
+      end
+  | GClose w =>
+      match gunits s w with
+      | None => (s, (5, 2, []))
+      | Some held =>
+          let s' := grelease s w held in
+          (GS (g_ctls s') (filter (fun p => negb (fst p =? w)) (g_writers s')) (g_used s')
+              (g_next s') (g_store s'), (0, 2, []))
+      end
+  end.
+
+Fixpoint e2eg_run (s : gstate) (ops : list gop) : list eobs * list (N * list Z) :=
+  match ops with
+  | [] => ([], g_store s)
+  | o :: rest =>
+      let '(s', ob) := e2eg_step s o in
+      let '(obs, st) := e2eg_run s' rest in (ob :: obs, st)
+  end.
